@@ -375,6 +375,19 @@ Theorem aggregate_result_types_fix : forall f v,
 Proof. exact planner_type_fix_ok. Qed.
 Print Assumptions aggregate_result_types_fix.
 
+Theorem hash_agg_rows_fix : forall m gcols aggs tys cs,
+  hash_agg2_fix m gcols aggs tys cs
+  = let gs := hash_groups2 m gcols aggs (rows_of cs) in
+    if existsb (fun g => existsb st_panic (snd g)) gs then Panic else Ok (map (group_row2 tys) gs).
+Proof. exact hash_agg2_fix_l. Qed.
+Print Assumptions hash_agg_rows_fix.
+
+Theorem typed_vector_second_null_refuted : exists cs,
+  hash_agg2 Checked [0%nat] [FAvg 1%nat] [TFloat] cs = Ok [[VInt 1; VNull]; [VInt 2; VFloat 0]]
+  /\ hash_agg2_fix Checked [0%nat] [FAvg 1%nat] [TFloat] cs = Ok [[VInt 1; VNull]; [VInt 2; VNull]].
+Proof. exact typed_vector_second_null_refuted_l. Qed.
+Print Assumptions typed_vector_second_null_refuted.
+
 (** non-vacuity: the hypotheses are met by non-trivial inputs *)
 Example nv_bpred : bpred (EBin And (EBin Lt (EBin Add (EVar 0) (ELit (VInt 1))) (ELit (VInt 5))) (EUn Not (EVar 1))) = true
                    /\ bpred (EBin InList (EVar 0) (EList [ELit (VInt 1)])) = true.
